@@ -8,8 +8,10 @@ package main
 
 import (
 	"encoding/json"
+	"errors"
 	"fmt"
 	"io"
+	"io/fs"
 	"math/rand"
 	"os"
 	"os/exec"
@@ -18,8 +20,8 @@ import (
 	"strconv"
 	"strings"
 	"sync"
-	"syscall"
 	"sync/atomic"
+	"syscall"
 	"time"
 
 	"github.com/rogpeppe/go-internal/lockedfile"
@@ -69,6 +71,7 @@ func worker() {
 	N, _ := strconv.Atoi(os.Getenv("C06_N"))
 	NP, _ := strconv.Atoi(os.Getenv("C06_PATHS"))
 	// index of a lock path that is not a regular file (-1: none); "chardev" or "fifo"
+	unpriv := os.Getenv("C06_UNPRIV") == "1"
 	nonreg, nonregKind := -1, os.Getenv("C06_NONREG_KIND")
 	if v := os.Getenv("C06_NONREG"); v != "" {
 		nonreg, _ = strconv.Atoi(v)
@@ -130,6 +133,11 @@ func worker() {
 				pi := rng.Intn(NP)
 				path := filepath.Join(dir, fmt.Sprintf("lock%d", pi))
 				api := apis[rng.Intn(len(apis))]
+				if unpriv {
+					// read-only lock files, unprivileged process: every write-locking entry point must be
+					// refused (no lock at all); read locks work and may be shared
+					api = []string{"Mutex.Lock", "Mutex.Lock", "Open", "OpenFile(O_RDONLY)", "Edit", "OpenFile(O_RDWR)"}[rng.Intn(6)]
+				}
 				// a path that cannot be truncated (device node, FIFO): Transform would fail on it,
 				// and a FIFO would fill up under Write - use the entry points that only lock
 				for pi == nonreg && (api == "Transform" || (api == "Write" && nonregKind == "fifo")) {
@@ -217,6 +225,12 @@ func worker() {
 					cr := &contentReader{enter: enter, leave: leave, data: []byte(fmt.Sprintf("w %d %d\n", os.Getpid(), i))}
 					err = lockedfile.Write(path, cr, 0o666)
 				}
+				if err != nil && unpriv && errors.Is(err, fs.ErrPermission) {
+					mu.Lock()
+					res.Acq["(refused: read-only lock file, unprivileged) "+api]++
+					mu.Unlock()
+					continue
+				}
 				if err != nil {
 					mu.Lock()
 					if len(res.Errors) < 5 {
@@ -253,10 +267,19 @@ func main() {
 		return
 	}
 	vlib.Main("C06", "exploration", 10*time.Minute, func(r *vlib.Run) {
-		r.Rule("rounds of P processes x G goroutines released together, each doing N acquisitions on 2-3 lock paths (regular files; every other round also one private character device or FIFO, whose truncation by Create/Write fails and is tolerated) through a random entry point (OpenFile O_RDONLY/O_WRONLY/O_RDWR, Open, Create, Edit, Mutex.Lock, inside Transform's function, inside the reader handed to Write), dwelling 0-300us inside, with seeded delays at the lockedfile.open/close hooks; every third round the workers run under strace, which makes every other flock call of every thread fail with EINTR (an interrupted lock request must be reissued, never taken for granted). Evaluations = acquisitions; distinct non-trivial = acquisitions that found a conflicting holder inside when they were invoked (had to wait), plus rounds.")
+		r.Rule("rounds of P processes x G goroutines released together, each doing N acquisitions on 2-3 lock paths (regular files; every other round also one private character device or FIFO, whose truncation by Create/Write fails and is tolerated) through a random entry point (OpenFile O_RDONLY/O_WRONLY/O_RDWR, Open, Create, Edit, Mutex.Lock, inside Transform's function, inside the reader handed to Write), dwelling 0-300us inside, with seeded delays at the lockedfile.open/close hooks; one round in six runs its workers as uid 65534 on lock files they can read but not write (write-locking entry points must be refused, not weakened); every third round the workers run under strace, which makes every other flock call of every thread fail with EINTR (an interrupted lock request must be reissued, never taken for granted). Evaluations = acquisitions; distinct non-trivial = acquisitions that found a conflicting holder inside when they were invoked (had to wait), plus rounds.")
 		r.Assume("flock semantics of the host kernel; the occupancy word is updated only between an acquiring call's return and the releasing call's invocation")
 		base := vlib.Scratch()
 		rounds := r.Pick(6, 28)
+		// a copy of this binary that uid 65534 can execute wherever /verif lives
+		workerBin := ""
+		os.Chmod(base, 0o777)
+		if b, err := os.ReadFile(os.Args[0]); err == nil {
+			wb := filepath.Join(base, "c06worker")
+			if os.WriteFile(wb, b, 0o755) == nil && os.Chmod(wb, 0o755) == nil {
+				workerBin = wb
+			}
+		}
 		_, sterr := exec.LookPath("strace")
 		haveStrace := sterr == nil
 		rng := r.Rand("rounds")
@@ -305,6 +328,18 @@ func main() {
 				r.Inconclusive(err.Error())
 				return
 			}
+			// one round runs its workers as uid 65534 on lock files they can read but not write:
+			// Mutex.Lock and the other write-locking entry points must then fail, not fall back to
+			// something weaker
+			unprivRound := round%6 == 3 && os.Getuid() == 0 && workerBin != ""
+			if unprivRound {
+				os.Chmod(dir, 0o777)
+				os.Chmod(filepath.Join(dir, "words"), 0o666)
+				for i := 0; i < NP; i++ {
+					os.Chmod(filepath.Join(dir, fmt.Sprintf("lock%d", i)), 0o444)
+				}
+				r.Count("rounds_unprivileged_on_read_only_lock_files", 1)
+			}
 			// every third round the workers run under strace with EINTR injected into flock
 			eintrRound := round%3 == 2 && haveStrace
 			var straceLogs []string
@@ -320,7 +355,11 @@ func main() {
 				out := filepath.Join(dir, fmt.Sprintf("res%d.json", p))
 				outs = append(outs, out)
 				cmd := exec.Command(os.Args[0])
-				if eintrRound {
+				if unprivRound {
+					cmd = exec.Command(workerBin)
+					cmd.SysProcAttr = &syscall.SysProcAttr{Credential: &syscall.Credential{Uid: 65534, Gid: 65534}}
+				}
+				if eintrRound && !unprivRound {
 					// every other flock call of every thread of this worker fails with EINTR (the
 					// system call is not executed): an interrupted request must be reissued, never
 					// taken for a granted lock
@@ -330,7 +369,7 @@ func main() {
 				}
 				cmd.Env = append(os.Environ(), "C06_WORKER=1", "C06_DIR="+dir, "C06_OUT="+out,
 					fmt.Sprintf("C06_SEED=%d", r.SubSeed(fmt.Sprintf("w-%d-%d", round, p))%1_000_000),
-					fmt.Sprintf("C06_G=%d", G), fmt.Sprintf("C06_N=%d", N), fmt.Sprintf("C06_PATHS=%d", NP), fmt.Sprintf("C06_NONREG=%d", nonreg), "C06_NONREG_KIND="+nonregKind, vlib.RaceEnv(racePrefix))
+					fmt.Sprintf("C06_G=%d", G), fmt.Sprintf("C06_N=%d", N), fmt.Sprintf("C06_PATHS=%d", NP), fmt.Sprintf("C06_UNPRIV=%d", map[bool]int{true: 1}[unprivRound]), fmt.Sprintf("C06_NONREG=%d", nonreg), "C06_NONREG_KIND="+nonregKind, vlib.RaceEnv(racePrefix))
 				cmd.Stderr = os.Stderr
 				if err := cmd.Start(); err != nil {
 					r.Inconclusive(err.Error())
